@@ -392,7 +392,8 @@ theorem C03_reject_operand_unreadable (T : Tables) (hT : noBlankHead T) (lead pi
 /-- REJECTION, TEXT LEVEL, ANY DEPTH.  `BadText T s` (Lemmas/C03q) describes, purely on the
     characters of `s`, a text in which the scan of `UnitSolver` reaches an operand the atom parser
     refuses — at the start, behind an operator sign, inside the first parenthesised group (to any
-    nesting depth, recursively) or behind it — or whose first `(` is never closed; what follows
+    nesting depth, recursively) or behind it — or whose first `(` is never closed or whose first
+    group has several comma-separated arguments (also inside groups, recursively); what follows
     the offending place is ARBITRARY.  Every such text is rejected by `UnitSolver(text)`,
     `BaseUnits(text)` and `Quantity(1,text)` with the same error, which is not the fuel error. -/
 theorem C03_reject_text (T : Tables) (s : Str) (h : BadText T s) :
@@ -528,5 +529,9 @@ example : (∃ err, unitSolver Gen.tables ("kg".toList ++ '*' :: (" ".toList ++ 
   · obtain ⟨err, h, _⟩ := (C03_reject_missing_operand Gen.tables '*' (Or.inl rfl)).1 " ".toList
       "m)(".toList (by unfold blank; decide)
     exact ⟨err, h⟩
+
+/-- `kg*(m,s)/J` (several arguments in a group) is an instance of `BadText` -/
+example : BadText Gen.tables ("kg*".toList ++ '(' :: ("m".toList ++ ',' :: "s)/J".toList)) :=
+  .comma _ _ _ (by decide) (by decide)
 
 end SciVerif.C03
